@@ -606,3 +606,7 @@ Section InPlace.
       let '(st2, os) := pure_loop k st' (skipn 16 inp) in (st2, o ++ os)
     end.
 End InPlace.
+
+(* little-endian value of a byte string (tweak_incr of sm4_xts.c counts data units this way) *)
+Fixpoint le_to_N (l : list N) : N :=
+  match l with [] => 0%N | b :: r => (b + 256 * le_to_N r)%N end.
